@@ -125,11 +125,13 @@ def is_float_derived(w, lin):
 # bind
 # ---------------------------------------------------------------------------
 
-def rule_bind(ctx, classes=SKETCH_CLASSES):
+def rule_bind(ctx, classes=SKETCH_CLASSES, methods=None):
     F = facts_of(ctx)
     n = 0
     for cls in F.classes(classes):
         for mname, meth in cls.methods.items():
+            if methods is not None and mname not in methods:
+                continue
             for k in F.calls_from(meth):
                 if not k.callee.is_kernel:
                     continue
@@ -151,6 +153,28 @@ def rule_bind(ctx, classes=SKETCH_CLASSES):
                     if a is None:
                         ctx.ob("bind", meth, k.node, "%s(%s=<missing>)" % (k.callee.name, p),
                                "every kernel parameter is supplied", False, "no argument for `%s`" % p)
+    # kernel -> kernel: a caller's own parameter handed on under the name of a *different* parameter of the callee (names are role
+    # names after canonicalisation: `uint_maxval` passed where `num_reserved` is expected)
+    mods = {cls.module.short for cls in F.classes(classes)}
+    scope = class_kernels(F, classes, methods)
+    for short in sorted(mods):
+        for kern in ctx.model.kernels(short):
+            if kern.key not in scope:
+                continue
+            rebound = {x.id for x in ast.walk(kern.node) if isinstance(x, ast.Name) and isinstance(x.ctx, ast.Store)}
+            for k in F.calls_from(kern):
+                if not k.callee.is_kernel:
+                    continue
+                crossed = []
+                for p_, a in k.argmap.items():
+                    if isinstance(a, ast.Name) and a.id in kern.params and a.id not in rebound and a.id in k.callee.params and a.id != p_ \
+                            and p_ in kern.params:
+                        crossed.append((p_, a.id))
+                if any(isinstance(a, ast.Name) and a.id in kern.params and a.id in k.callee.params for a in k.argmap.values()):
+                    n += 1
+                    ctx.ob("bind", kern, k.node, "%s(...) in %s" % (k.callee.name, kern.name),
+                           "a kernel hands its own parameters on to the callee's parameters of the same role", not crossed,
+                           "" if not crossed else "; ".join("parameter `%s` of %s receives the caller's `%s`" % (p_, k.callee.name, q) for p_, q in crossed))
     return n
 
 
